@@ -129,6 +129,7 @@ func VerifC11Abort() {
 	vstub.Cover("retried")
 	for _, e := range all {
 		vstub.Assert(inLog(a, e), "C11 after an aborted request a later request makes every reachable entry visible")
+		vstub.Assert(inView(a, e), "C11 after an aborted request a later request makes every reachable entry visible in the view")
 	}
 }
 
@@ -187,6 +188,7 @@ func VerifC11CancelAnywhere() {
 	vstub.Cover("retried")
 	for _, x := range all {
 		vstub.Assert(inLog(a, x), "C11 after a request cancelled at any step a later request makes every reachable entry visible")
+		vstub.Assert(inView(a, x), "C11 after a request cancelled at any step a later request makes every reachable entry visible in the view")
 	}
 }
 
@@ -286,6 +288,7 @@ func VerifC11Saturated() {
 	vstub.Cover("retried")
 	for _, e := range all {
 		vstub.Assert(inLog(a, e), "C11 after a request aborted while the replicator was saturated a later request makes every reachable entry visible")
+		vstub.Assert(inView(a, e), "C11 after a request aborted while the replicator was saturated a later request makes every reachable entry visible in the view")
 	}
 	vstub.Assert(len(a.Replicator().GetQueue()) == 0, "C11 nothing is left queued once the later request completed")
 }
